@@ -23,14 +23,16 @@
 //@   assigns(c->c_chunk, c->c_valid, c->b_ptr, c->b_remain, c->strLen, c->advanced, c->extracted, __CPROVER_object_whole(c->str))
 //@   loop 1: assigns(c->c_chunk, c->c_valid, c->b_ptr, c->b_remain)
 //@   loop 1: invariant((uint)OFFS(c->b_ptr) + c->b_remain == (uint)OFFS(__CPROVER_loop_entry(c->b_ptr)) + __CPROVER_loop_entry(c->b_remain) && __CPROVER_same_object(c->b_ptr, __CPROVER_loop_entry(c->b_ptr)) && c->c_valid <= 24)
+//@ ob chunk_getSubstring_accounting entry=h_getsub enforce=DecodingTable__getSubstring replace=strlen loops tier=P props=C18,C07 kind=representation timeout=900 nochecks=bounds-check,pointer-check,pointer-overflow-check,pointer-primitive-check,undefined-shift-check
 //@ ob chunk_processChunk_accounting entry=h_procchunk enforce=DecodingTable__processChunk replace=DecodingTable__getSubstring loops tier=P props=C18,C07 kind=representation timeout=600 nochecks=bounds-check,pointer-check,pointer-overflow-check,pointer-primitive-check,undefined-shift-check
 #define STRCAP 1100
 typedef struct BitString BitString;
 #include "vec.h"
 DEFINE_VEC(uint, vec_uint)
 //@ structs
-/* TRUSTED: the contract of getSubstring (byte accounting in the long-code-word subtree walk) is used by the processChunk obligation but is NOT discharged: enforcing it did not finish within 15 minutes (dfcc + symbolic table/tree indices). A seeded change inside getSubstring (m_C18) is therefore not detected. */
 /* ASSUMES: this obligation decides one clause only -- every byte taken from the bucket (b_ptr++) is accounted for in b_remain, in the chunk refill loop and in the long-code-word subtree walk; CBMC's read-side memory checks are off (the decoding table, its stream and its subtrees are arbitrary here) */
+/* TRUSTED: strlen reads its argument and writes nothing (its result is irrelevant to the byte accounting) */
+size_t strlen(const char *s) __CPROVER_requires(1) __CPROVER_ensures(1) __CPROVER_assigns();
 //@ lowered
 static ChunkScan *mk_scan(void) {
   ChunkScan *c = malloc(sizeof(ChunkScan)); __CPROVER_assume(c != NULL);
@@ -46,4 +48,5 @@ static DecodingTable *mk_table(void) {
   for (int i = 0; i < 2; i++) { t->subtrees[i] = malloc(sizeof(DecodingTree)); __CPROVER_assume(t->subtrees[i] != NULL); t->subtrees[i]->tree = malloc(8 * sizeof(TreeNode)); __CPROVER_assume(t->subtrees[i]->tree != NULL); }
   return t;
 }
+void h_getsub(void) { DecodingTable *t = mk_table(); ChunkScan *c = mk_scan(); DecodingTable__getSubstring(t, c); REACH_POINT(); }
 void h_procchunk(void) { DecodingTable *t = mk_table(); ChunkScan *c = mk_scan(); DecodingTable__processChunk(t, c); REACH_POINT(); }
